@@ -301,7 +301,15 @@ class PDFContentParser(PSStackParser[Union[PSKeyword, PDFStream]]):
         i = 0
         data = b""
         while i <= len(target):
-            self.fillbuf()
+            try:
+                self.fillbuf()
+            except PSEOF:
+                if i != len(target):
+                    raise
+                # The end marker is the last thing in the content stream:
+                # end of data delimits it like white space does.
+                data += b" "
+                break
             if i:
                 ci = self.buf[self.charpos]
                 c = bytes((ci,))
